@@ -492,7 +492,7 @@ func genForCodec(r *core.Rand, codecCode uint64) core.Val {
 
 func runC06(c *core.Ctx) error {
 	c.Rule = "blocks = encodings of generated values under dag-cbor, dag-json, raw, cbor, json with sha2-256/sha2-512/sha1/md5/identity and truncated digests; per block: every single-bit flip and every truncation length and a read error at every offset (sampled for blocks above 48 bytes in the quick tier), appended bytes incl. whitespace, substituted blocks, chunkings, combinations; each through Load, Fill, LoadRaw, LoadPlusRaw; non-trivial = a faulted stream; distinct by (link, fault, function)"
-	c.Explanation = "theorems (arbitrary hash function, reader and decoder behaviour): fill_ok_hashes, fill_ok_whole_block, mismatch_precedes_decode, mismatch_on_success, io_surfaces, loadRaw_ok_hashes, store_fail_no_commit, dagcbor_ok_consumes_all"
+	c.Explanation = "theorems (arbitrary hash function, reader and decoder behaviour): fill_ok_hashes, fill_ok_whole_block (no hypothesis on the decoder), mismatch_precedes_decode, mismatch_whatever_the_decoder, io_surfaces, loadRaw_ok_hashes, store_fail_no_commit, corruption_refused_any_decoder"
 	c.Assumptions = []string{"hash implementations (go-multihash) are trusted; statements are modulo collisions (a truncated digest of length 0 accepts everything)", "TrustedStorage is excluded by the property", "a read error persists once it has occurred"}
 	reg := testRegistry()
 	nblocks := c.Pick(40, 1500)
@@ -531,6 +531,7 @@ func runC06(c *core.Ctx) error {
 	c06Large(c, reg)
 	c06Extended(c, reg)
 	c06HostileLinks(c, reg)
+	c06EarlyStop(c)
 	return c06Store(c, reg)
 }
 
@@ -640,6 +641,97 @@ func c06Extended(c *core.Ctx, reg multicodec.Registry) {
 							c.Fail("C06/mismatch-not-reported", core.Replay{Kind: "oracle", Case: caseID, Impl: cls + " " + truncateStr(fmt.Sprint(err), 200), Expected: "hashMismatch"})
 						}
 					}
+				}
+			}
+		}
+	}
+}
+
+// c06EarlyStop: link systems whose DecoderChooser hands out decoders that stop BEFORE the end of the stream - the
+// bundled decoders configured with DontParseBeyondEnd, a decoder that reads a fixed number of bytes, one that reads
+// nothing - over blocks that were extended, or changed behind the point where the decoder stops, in storage: the hash
+// is that of the whole stream whatever the decoder consumed, so every such load fails with the hash mismatch; the intact
+// block loads.
+func c06EarlyStop(c *core.Ctx) {
+	r := c.Rand.Fork()
+	type dec struct {
+		name  string
+		codec uint64
+		fn    codec.Decoder
+	}
+	decs := []dec{
+		{"dagcbor-DontParseBeyondEnd", 0x71, dagcbor.DecodeOptions{AllowLinks: true, DontParseBeyondEnd: true}.Decode},
+		{"dagjson-DontParseBeyondEnd", 0x0129, dagjson.DecodeOptions{ParseLinks: true, ParseBytes: true, DontParseBeyondEnd: true}.Decode},
+		{"reads-8-bytes", 0x55, func(na datamodel.NodeAssembler, rd io.Reader) error {
+			buf := make([]byte, 8)
+			n, _ := io.ReadFull(rd, buf)
+			return na.AssignBytes(buf[:n])
+		}},
+		{"reads-nothing", 0x55, func(na datamodel.NodeAssembler, rd io.Reader) error { return na.AssignNull() }},
+	}
+	for i := 0; i < c.Pick(60, 3000); i++ {
+		d := decs[r.Intn(len(decs))]
+		var block []byte
+		if d.codec == 0x55 {
+			block = r.Bytes(9 + r.Intn(40))
+		} else {
+			n, err := core.BuildBasic(genForCodec(r, d.codec), r)
+			if err != nil {
+				continue
+			}
+			var buf bytes.Buffer
+			enc := dagcbor.Encode
+			if d.codec == 0x0129 {
+				enc = dagjson.Encode
+			}
+			if err := enc(n, &buf); err != nil {
+				continue
+			}
+			block = buf.Bytes()
+		}
+		sum, _ := mh.Sum(block, mh.SHA2_256, -1)
+		lnk := cidlink.Link{Cid: cid.NewCidV1(d.codec, sum)}
+		type variant struct {
+			name   string
+			stored []byte
+			intact bool
+		}
+		vars := []variant{{"intact", block, true}, {"extended", append(append([]byte{}, block...), r.Bytes(1+r.Intn(6))...), false}}
+		if d.codec == 0x55 && len(block) > 9 {
+			ch := append([]byte{}, block...)
+			ch[8+r.Intn(len(ch)-8)] ^= 0x40 // behind the point where the decoder stops
+			vars = append(vars, variant{"changed-behind-the-decoder", ch, false})
+		}
+		for _, vr := range vars {
+			lsys := cidlink.DefaultLinkSystem()
+			lsys.DecoderChooser = func(datamodel.Link) (codec.Decoder, error) { return d.fn, nil }
+			stored := vr.stored
+			lsys.StorageReadOpener = func(linking.LinkContext, datamodel.Link) (io.Reader, error) { return bytes.NewReader(stored), nil }
+			for _, fn := range []string{"Load", "Fill", "LoadPlusRaw"} {
+				var err error
+				_, panicked, pv := core.Catch(func() error {
+					switch fn {
+					case "Load":
+						_, err = lsys.Load(linking.LinkContext{}, lnk, basicnode.Prototype.Any)
+					case "Fill":
+						err = lsys.Fill(linking.LinkContext{}, lnk, basicnode.Prototype.Any.NewBuilder())
+					default:
+						_, _, err = lsys.LoadPlusRaw(linking.LinkContext{}, lnk, basicnode.Prototype.Any)
+					}
+					return nil
+				})
+				caseID := fmt.Sprintf("c06.early-stop %s decoder=%s %s block=%x stored=%x", fn, d.name, vr.name, block, stored)
+				c.Count(caseID, !vr.intact)
+				c.Dist("early-stop:" + d.name + ":" + vr.name)
+				switch {
+				case panicked:
+					c.Fail("C06/panic", core.Replay{Kind: "oracle", Case: caseID, Impl: fmt.Sprint(pv)})
+				case vr.intact && err != nil:
+					c.Fail("C06/intact-block-refused", core.Replay{Kind: "oracle", Case: caseID, Impl: truncateStr(fmt.Sprint(err), 200), Expected: "loaded"})
+				case !vr.intact && err == nil:
+					c.Fail("C06/ok-without-hash-match", core.Replay{Kind: "oracle", Case: caseID, Impl: "loaded", Expected: "hash mismatch", Detail: "the decoder stops before the end of the stream; the stream as a whole does not hash to the link"})
+				case !vr.intact && classifyLoadErr(err) != "hashMismatch":
+					c.Fail("C06/mismatch-not-reported", core.Replay{Kind: "oracle", Case: caseID, Impl: truncateStr(fmt.Sprint(err), 200), Expected: "hashMismatch"})
 				}
 			}
 		}
